@@ -123,7 +123,7 @@ PROPS["C01"] = {
     "assumptions": ["the harness's reading of which proto shapes are oneof wrappers / exposed oneofs / flattened (j5ref) matches the documented annotations"],
     "lanes": [
         lane("TestRaw", "raw", 1500, 6000, shards=16, must_classes=["msg:exposed-oneof-set", "msg:wrapper-oneof-set", "msg:map-of-messages", "schema:flatten", "schema:any"]),
-        lane("TestCompiled", "compiled", 250, 2000, shards=16),
+        lane("TestCompiled", "compiled", 250, 800, shards=16),
     ],
 }
 
@@ -144,7 +144,7 @@ PROPS["C08"] = {
     "lanes": [
         lane("TestRaw", "raw", 1500, 6000, shards=16, must_classes=["msg:exposed-oneof-set", "msg:wrapper-oneof-set", "schema:flatten", "schema:any"]),
         lane("TestExtended", "extended", 600, 3000, shards=8, must_classes=["msg:non-finite-float", "msg:out-of-range-date"]),
-        lane("TestCompiled", "compiled", 250, 2000, shards=16),
+        lane("TestCompiled", "compiled", 250, 800, shards=16),
     ],
 }
 
@@ -191,9 +191,9 @@ PROPS["C03"] = {
         lane("TestSpelling", "spelling", 800, 4000, shards=16, must_classes=["var:bare-int64", "var:base64-url", "var:enum-with-prefix", "var:timestamp-offset", "var:explicit-null", "var:reorder"]),
         lane("TestFault", "fault", 800, 4000, shards=16, must_classes=["fault:two-keys-in-oneof", "fault:type-contradicts-key", "fault:type-contradicts-key:type-last", "fault:unknown-key", "pos:array-element", "pos:map-value", "pos:oneof-arm"]),
         lane("TestQuery", "query", 1500, 6000, shards=8, must_classes=["nested-path", "scalar-array"]),
-        lane("TestSpellingCompiled", "spelling-j5s", 200, 1500, shards=16),
-        lane("TestFaultCompiled", "fault-j5s", 200, 1500, shards=16),
-        lane("TestQueryCompiled", "query-j5s", 200, 1500, shards=8),
+        lane("TestSpellingCompiled", "spelling-j5s", 200, 500, shards=16),
+        lane("TestFaultCompiled", "fault-j5s", 200, 500, shards=16),
+        lane("TestQueryCompiled", "query-j5s", 200, 500, shards=8),
     ],
 }
 
